@@ -638,6 +638,38 @@ def run_rt(spec, acc):
                 tls.cap = None
                 mrecords.append((sid, mode, p0, p1, cap, exc))
                 time.sleep(0.0007)
+            if i % 6 == 3:
+                # a routine step that keeps the library lock for longer than any
+                # plausible internal time-out (1.2-1.7 s: blocking i/o, a slow
+                # computation) while the main thread sends: the send waits, its
+                # bundle is stamped with the sender's present, not with the logical
+                # time of the routine that happens to be running
+                in_step = threading.Event()
+                hold = rng.choice([1.2, 1.7])
+
+                def long_step():
+                    in_step.set()
+                    time.sleep(hold)
+                    return
+                    yield
+                SystemClock.sched(0.002, Routine(long_step))
+                if in_step.wait(5.0):
+                    sid = next(sids)
+                    kind, lst = gen(rng2, sid, p_bundle=1.0)
+                    sends[sid] = (kind, G.clone(lst))
+                    tls.cap = cap = []
+                    exc = None
+                    p0 = main.elapsed_time()
+                    try:
+                        do_send(kind, lst, srv_m)
+                    except Exception as e:
+                        exc = e
+                    p1 = main.elapsed_time()
+                    tls.cap = None
+                    mrecords.append((sid, 'unlocked-while-a-routine-holds-the-lock',
+                                     p0, p1, cap, exc))
+                    acc.count('rt_main_thread_sends_during_a_long_routine_step')
+                    acc.maxi('max_main_thread_send_blocked_s', p1 - p0)
             stuck = sum(not e.is_set() for e in events)
             if stuck:
                 acc.count('rt_routines_not_finished_in_time', stuck)
